@@ -230,12 +230,13 @@ def rename_rules(ctx):
         if not prec or e.kind == "fs-write?":
             ctx.undecided("C18.3", e.fn, "rename may reach %s" % _eff_text(e), e.site, path=where)
             continue
-        if e.prim not in ("os.rename",):
+        if e.prim not in ("os.rename", "shutil.move"):
             ctx.violated("C18.3", e.fn, "rename reaches a file-system-mutating primitive other than os.rename: %s" % _eff_text(e),
                          e.site, path=where)
             continue
         n_rename += 1
         fn, call = e.fn, e.site
+        mover = e.prim == "shutil.move"     # acts like os.rename only when the destination does not exist at all (else it moves INTO a directory)
         if len(call.args) < 2 or not isinstance(call.args[1], ast.Name):
             ctx.undecided("C18.3", fn, "destination of os.rename is not a plain variable", call)
             continue
@@ -243,18 +244,25 @@ def rename_rules(ctx):
         g = C.cfg_of(fn)
         rn = C.stmt_node(ctx, fn, call)
         guarded = False
+        weak = []
         for tnode in g.live_nodes():
             if tnode.kind != "test" or not g.dominates(tnode, rn):
                 continue
             texpr = C.test_expr(tnode)
 
             def atom(x):
-                if C.is_ext_call(ctx, x, fn, ("os.path.exists", "os.path.lexists", "os.path.isfile")) and x.args \
+                # only a test for *any* kind of entry protects: is_file / isfile lets a directory, FIFO, socket or a link to a
+                # directory through, and os.rename silently replaces those (shutil.move moves into a directory)
+                if C.is_ext_call(ctx, x, fn, ("os.path.exists", "os.path.lexists")) and x.args \
                         and isinstance(x.args[0], ast.Name) and x.args[0].id == dst:
                     return True
-                if isinstance(x, ast.Call) and isinstance(x.func, ast.Attribute) and x.func.attr in ("exists", "is_file") \
+                if isinstance(x, ast.Call) and isinstance(x.func, ast.Attribute) and x.func.attr in ("exists",) \
                         and isinstance(x.func.value, ast.Name) and x.func.value.id == dst:
                     return True
+                if C.is_ext_call(ctx, x, fn, ("os.path.isfile", "os.path.isdir", "os.path.islink")) and x.args and isinstance(x.args[0], ast.Name) and x.args[0].id == dst:
+                    weak.append(norm(x))
+                if isinstance(x, ast.Call) and isinstance(x.func, ast.Attribute) and x.func.attr in ("is_file", "is_dir", "is_symlink") and isinstance(x.func.value, ast.Name) and x.func.value.id == dst:
+                    weak.append(norm(x))
                 return None
             lab = C.branch_when(tnode, atom)
             if lab is None:
@@ -265,12 +273,13 @@ def rename_rules(ctx):
             if C.names_assigned_between(ctx, fn, tnode, rn, dst):
                 continue
             guarded = True
-            ctx.holds("C18.3", fn, "os.rename is dominated by the test '%s'; when the destination exists the %s branch is taken and it cannot reach the rename" % (
-                norm(texpr), lab), call, path=where)
+            ctx.holds("C18.3", fn, "%s is dominated by the test '%s'; when the destination exists the %s branch is taken and it cannot reach the rename" % (
+                e.prim, norm(texpr), lab), call, path=where)
             break
         if not guarded:
-            ctx.violated("C18.3", fn, "os.rename(%s, %s) is not guarded by an existence test on the destination whose 'exists' branch leaves the function: an existing file would be replaced" % (
-                norm(call.args[0]), dst), call, path=where)
+            ctx.violated("C18.3", fn, "%s(%s, %s) is not guarded by an existence test on the destination whose 'exists' branch leaves the function: an existing %s" % (
+                e.prim, norm(call.args[0]), dst, "entry that is not a regular file (directory, FIFO, link to a directory) passes `%s` and is replaced%s" % (
+                    weak[0], " - shutil.move even moves the metafile into an existing directory" if mover else "") if weak else "file would be replaced"), call, path=where)
     ctx.floor("os.rename sites reachable from commands.rename", 1, n_rename)
 
 
@@ -343,7 +352,7 @@ CLAIM = {
     "text": "Decided for all inputs and configurations as a who-may-write argument: no file-system-mutating primitive is reachable in the call graph "
             "from info / recheck / magnet / the CLI prefix; create reaches only its removed writability probe and one non-looping dump whose target "
             "is not payload-derived; rename reaches only os.rename under a dominating existence guard. Byte-for-byte equality of untouched files "
-            "follows because nothing that could change them is reachable, under the effect table.",
+            "follows because nothing that could change them is reachable, under the effect table. The destination guard of rename must test for any kind of entry (exists / lexists), not is_file.",
     "note": "Trusted: CPython/pyben primitive semantics as tabulated in tfsa/effects.py; call resolution is over-approximating (unknown receivers link to every "
             "same-named package method; unresolved writes are reported as undecided, exit 2); user-supplied callbacks are outside the package.",
     "technique": "effect summaries over the resolved call graph (who-may-write), CFG dominance / must-pass-through, origin-term slicing of written paths",
